@@ -43,6 +43,8 @@ type Instance struct {
 	Args    []*Term      // argument terms of the inlined call (as written at the call, unresolved)
 	exit    *Node
 	nlits   int
+	// deferred literals that assign a named result and run at every later return
+	resultDefers []*ast.FuncLit
 }
 
 // Path returns the chain of function names from the root to this instance.
